@@ -38,12 +38,12 @@ var nibbleFills = []byte{0x00, 0xff, 0x0f, 0xf0, 0x11, 0x88}
 // 0-heavy / F-heavy nibble patterns, 1, n-1, single nibbles, GLV-steered
 // values (half signs), boundary-biased values.
 func SecretScalar(t *rapid.T, label string) (*big.Int, string) {
-	kind := rapid.SampledFrom([]string{"nibble-pattern", "nibble-pattern", "1", "n-1", "single-nibble", "glv", "glv", "biased", "2^k"}).Draw(t, label+"_kind")
+	kind := gen.Sampled([]string{"nibble-pattern", "nibble-pattern", "1", "n-1", "single-nibble", "glv", "glv", "biased", "2^k"}).Draw(t, label+"_kind")
 	var v *big.Int
 	switch kind {
 	case "nibble-pattern":
 		b := make([]byte, 32)
-		fill := rapid.SampledFrom(nibbleFills).Draw(t, label+"_fill")
+		fill := gen.Sampled(nibbleFills).Draw(t, label+"_fill")
 		for i := range b {
 			b[i] = fill
 		}
